@@ -108,6 +108,7 @@ func Run(c *mc.Ctx, cfg Cfg, opt Opts, w *World, history []string) (key string, 
 	x := &Exec{C: c, Cfg: cfg, Opt: opt, W: w, set: set, dir: dir, dbPath: filepath.Join(dir, "aggsender.sqlite")}
 	x.tmpl = w.EmptyCertDB(cfg.Faults)
 	x.Ag = NewAgglayer(w.Hist)
+	x.Ag.OmitPrevLER = cfg.NoPrevLER
 	x.k = &knobs{ag: x.Ag}
 	x.Ag.Trace = func(f string, a ...any) { c.Obs(f, a...) }
 	x.k.trace = x.Ag.Trace
